@@ -98,15 +98,20 @@ func Reach(fn *ssa.Function, starts []Point, targets, cuts *Set) []Hit {
 	type item struct {
 		p      Point
 		parent int
+		from   *ssa.BasicBlock // predecessor through which the block was entered (nil for start points)
 	}
 	var q []item
 	if starts == nil {
 		starts = []Point{{fn.Blocks[0], 0}}
 	}
 	for _, s := range starts {
-		q = append(q, item{s, -1})
+		q = append(q, item{s, -1, nil})
 	}
-	visited := map[*ssa.BasicBlock]bool{}
+	type vkey struct {
+		b    *ssa.BasicBlock
+		from *ssa.BasicBlock
+	}
+	visited := map[vkey]bool{}
 	var hits []Hit
 	hitSeenI := map[ssa.Instruction]bool{}
 	hitSeenE := map[Edge]bool{}
@@ -123,11 +128,19 @@ func Reach(fn *ssa.Function, starts []Point, targets, cuts *Set) []Hit {
 	for qi := 0; qi < len(q); qi++ {
 		it := q[qi]
 		b := it.p.B
+		forced := -1
 		if it.p.I == 0 {
-			if visited[b] {
+			key := vkey{b, nil}
+			if phiCond(b) != nil {
+				// limited path sensitivity: a branch on a boolean phi whose operand for the
+				// incoming edge is a constant (the `x := a || b; if x` idiom) has a determined outcome
+				key.from = it.from
+				forced = forcedSucc(b, it.from)
+			}
+			if visited[key] {
 				continue
 			}
-			visited[b] = true
+			visited[key] = true
 		}
 		stopped := false
 		for i := it.p.I; i < len(b.Instrs); i++ {
@@ -145,6 +158,9 @@ func Reach(fn *ssa.Function, starts []Point, targets, cuts *Set) []Hit {
 			continue
 		}
 		for si := range b.Succs {
+			if forced >= 0 && si != forced {
+				continue
+			}
 			e := Edge{b, si}
 			if targets.E[e] && !hitSeenE[e] {
 				hitSeenE[e] = true
@@ -154,10 +170,67 @@ func Reach(fn *ssa.Function, starts []Point, targets, cuts *Set) []Hit {
 			if cuts.E[e] {
 				continue
 			}
-			q = append(q, item{Point{b.Succs[si], 0}, qi})
+			q = append(q, item{Point{b.Succs[si], 0}, qi, b})
 		}
 	}
 	return hits
+}
+
+// phiCond returns the boolean phi (defined in b) that decides b's terminating If, if any.
+func phiCond(b *ssa.BasicBlock) *ssa.Phi {
+	if len(b.Instrs) == 0 {
+		return nil
+	}
+	iff, ok := b.Instrs[len(b.Instrs)-1].(*ssa.If)
+	if !ok {
+		return nil
+	}
+	c := iff.Cond
+	if u, ok := c.(*ssa.UnOp); ok && u.Op == token.NOT && u.Block() == b {
+		c = u.X
+	}
+	if phi, ok := c.(*ssa.Phi); ok && phi.Block() == b {
+		return phi
+	}
+	return nil
+}
+
+// forcedSucc: entering b from pred `from`, which successor of b's If is taken when the
+// deciding phi has a constant operand for that edge; -1 if not determined.
+func forcedSucc(b, from *ssa.BasicBlock) int {
+	phi := phiCond(b)
+	if phi == nil || from == nil {
+		return -1
+	}
+	iff := b.Instrs[len(b.Instrs)-1].(*ssa.If)
+	neg := false
+	if u, ok := iff.Cond.(*ssa.UnOp); ok && u.Op == token.NOT {
+		neg = true
+	}
+	// a block may list the same predecessor twice; only decide when all matching edges agree
+	res := -1
+	for k, p := range b.Preds {
+		if p != from {
+			continue
+		}
+		c, ok := phi.Edges[k].(*ssa.Const)
+		if !ok || c.Value == nil {
+			return -1
+		}
+		v := c.Value.ExactString() == "true"
+		if neg {
+			v = !v
+		}
+		r := 1
+		if v {
+			r = 0
+		}
+		if res >= 0 && res != r {
+			return -1
+		}
+		res = r
+	}
+	return res
 }
 
 // ---------------------------------------------------------------------------
